@@ -12,6 +12,7 @@
 -/
 import XotModel.Lemmas.Axes
 import XotModel.Lemmas.ArenaExamples
+import XotModel.Lemmas.ArenaTraverse
 
 namespace XotModel.Props
 open XotModel XotModel.Axes
@@ -366,8 +367,8 @@ example : topElement (.node .document [.node (.comment []) []]) [] = .ok [] := b
   The theorems above take indextree's iterators "by contract" (`children`, `ancestors`, … = the
   obvious lists).  For a well-formed arena (`Arena.Rep a g`, see `Props/C04`) the pointer walks of
   `traverse.rs` are proved to yield exactly those lists, within their limit, without panic.
-  `traverse`, `reverse_traverse`, `descendants` are modelled and compared with
-  the crate on every run (suite `arena`), not proved.
+  `reverse_traverse` is modelled and compared with the crate on every run (suite `arena`), not
+  proved.
   ===================================================================================== -/
 
 /-- `children`, `reverse_children` (also what xot's own `reverse_children` walks), `ancestors`
@@ -409,6 +410,17 @@ theorem C07_arena_iterators (a : Arena) (g : Arena.Shape) (r : Arena.Rep a g) (p
   · intro c hc
     exact Arena.LiveId.idAt (r.kidsLive p c hc).2.1
 
+/-- `traverse` from a live node yields exactly the edges of its subtree in document order
+    (`Arena.EdgesOf`: `Start(c)`, the edges of the children's subtrees in order, `End(c)`), and
+    `descendants` the nodes of its `Start` edges (the subtree in document order), whenever the limit
+    is at least the number of edges; no panic. -/
+theorem C07_arena_traverse (a : Arena) (g : Arena.Shape) (r : Arena.Rep a g) (c : Nat) (hc : Arena.Live a c) :
+    ∃ l, Arena.EdgesOf g c l ∧ ∀ limit, l.length ≤ limit →
+      Arena.traverse a (a.idAt c) limit = .done a (l.map (Arena.toEdge a)) ∧
+      Arena.descendants a (a.idAt c) limit = .done a ((l.filter (·.1)).map (fun e => a.idAt e.2)) := by
+  obtain ⟨l, hl⟩ := r.edges_exists c hc
+  exact ⟨l, hl, fun limit hlim => ⟨r.traverse_eq hl hc limit hlim, r.descendants_eq hl hc limit hlim⟩⟩
+
 /-- Non-vacuity on closed arenas (`sampleC`: `1:0 [4:0, 3:0]`, slot 2 reused as `2:1`): the
     iterators, and the defect of `Children::next_back` in 4.7.2 (`children().rev()` keeps yielding
     the last child — cut off by the limit here; xot does not call it). -/
@@ -418,6 +430,8 @@ example : Arena.children Arena.sampleC ⟨1, 0⟩ 4 = .done Arena.sampleC [⟨4,
     Arena.followingSiblings Arena.sampleC ⟨4, 0⟩ 4 = .done Arena.sampleC [⟨4, 0⟩, ⟨3, 0⟩] ∧
     Arena.precedingSiblings Arena.sampleC ⟨3, 0⟩ 4 = .done Arena.sampleC [⟨3, 0⟩, ⟨4, 0⟩] ∧
     Arena.descendants Arena.sampleB ⟨1, 0⟩ 9 = .done Arena.sampleB [⟨1, 0⟩, ⟨2, 0⟩, ⟨4, 0⟩, ⟨3, 0⟩] ∧
+    Arena.traverse Arena.sampleB ⟨2, 0⟩ 9 =
+      .done Arena.sampleB [.start ⟨2, 0⟩, .start ⟨4, 0⟩, .end ⟨4, 0⟩, .end ⟨2, 0⟩] ∧
     Arena.childrenRev Arena.sampleC ⟨1, 0⟩ 5 = .done Arena.sampleC [⟨3, 0⟩, ⟨3, 0⟩, ⟨3, 0⟩, ⟨3, 0⟩, ⟨3, 0⟩] := by
   decide
 
